@@ -206,10 +206,16 @@ func Family(name string, tier string) []*Scenario {
 		out = append(out, fourVertexSingleFault(thorough)...)
 		out = append(out, fiveVertexFaults(thorough)...)
 		out = append(out, bufferedFaults(thorough)...)
+		out = append(out, retryWithOtherFault(thorough)...)
+		out = append(out, ownContextError(thorough)...)
+		out = append(out, runThenExtend(thorough)...)
 	case "C14":
 		out = append(out, fourVertexSingleFault(thorough)...)
 		out = append(out, fiveVertexFaults(thorough)...)
 		out = append(out, bufferedFaults(thorough)...)
+		out = append(out, retryWithOtherFault(thorough)...)
+		out = append(out, ownContextError(thorough)...)
+		out = append(out, runThenExtend(thorough)...)
 		for n := 1; n <= 3; n++ {
 			for _, es := range AllDAGs(n) {
 				for _, scr := range assignments(n, []string{"ok", "err", "skip"}) {
@@ -321,6 +327,12 @@ func Family(name string, tier string) []*Scenario {
 						out = append(out, sc)
 					}
 				}
+			}
+		}
+		out = append(out, readdedSharedTask(thorough)...)
+		for _, sc := range retryWithOtherFault(thorough) {
+			if sc.Mode == "max1" || sc.Mode == "max2" {
+				out = append(out, sc)
 			}
 		}
 		// a failing or skipping task must not loosen the bound
@@ -436,6 +448,9 @@ func Family(name string, tier string) []*Scenario {
 			}
 		}
 		out = append(out, fiveVertexFaults(thorough)...)
+		out = append(out, retryWithOtherFault(thorough)...)
+		out = append(out, runThenExtend(thorough)...)
+		out = append(out, sharedSaturated(thorough)...)
 	case "C16hist":
 		// (a) construction histories
 		depth := 4
@@ -446,6 +461,7 @@ func Family(name string, tier string) []*Scenario {
 			{"add", 0, 0}, {"add", 1, 0}, {"add", 2, 0},
 			{"dep", 0, 1}, {"dep", 1, 2}, {"dep", 0, 2}, {"dep", 1, 0}, {"dep", 0, 0},
 			{"retries", 0, 1}, {"retries", 0, -1},
+			{"sort", 0, 0}, {"run", 0, 0},
 		}
 		var rec func(h []Call)
 		rec = func(h []Call) {
@@ -459,11 +475,22 @@ func Family(name string, tier string) []*Scenario {
 						hasRetries = true
 					}
 				}
-				if hasRetries {
+				hasRun := false
+				for _, c := range h[:len(h)-1] {
+					if c.Op == "run" {
+						hasRun = true
+					}
+				}
+				if hasRetries || hasRun {
 					// the same history with a task that always fails
 					sc2 := &Scenario{N: 3, Hist: append([]Call(nil), h...), Mode: "par", History: true}
 					sc2.Scripts = [][]string{{"err"}, {"ok"}, {"ok"}}
 					out = append(out, sc2)
+				}
+				if hasRun {
+					sc3 := &Scenario{N: 3, Hist: append([]Call(nil), h...), Mode: "par", History: true}
+					sc3.Scripts = [][]string{{"ok"}, {"err"}, {"ok"}}
+					out = append(out, sc3)
 				}
 			}
 			if len(h) == depth {
@@ -620,6 +647,213 @@ func bufferedFaults(thorough bool) []*Scenario {
 				sc.Buffer = true
 				out = append(out, sc)
 			}
+		}
+	}
+	return out
+}
+
+// retryWithOtherFault: a task with retries next to another task that fails (or returns its own context error, or
+// skips) - the second failure can be recorded between two attempts of the first; also with cancellation.
+func retryWithOtherFault(thorough bool) []*Scenario {
+	var out []*Scenario
+	for n := 2; n <= 3; n++ {
+		for _, es := range AllDAGs(n) {
+			if len(es) > 1 || (n == 3 && len(es) > 0 && !thorough) {
+				continue
+			}
+			for _, rs := range [][]string{{"err", "err"}, {"err", "ok"}} {
+				for _, other := range []string{"err", "skip"} {
+					for v := 0; v < 2; v++ {
+						u := 1 - v
+						dependent := false
+						for _, e := range es {
+							if (e[0] == v && e[1] == u) || (e[0] == u && e[1] == v) {
+								dependent = true
+							}
+						}
+						if dependent {
+							continue
+						}
+						scr := make([][]string, n)
+						for i := range scr {
+							scr[i] = []string{"ok"}
+						}
+						scr[v] = rs
+						scr[u] = []string{other}
+						ret := make([]int, n)
+						ret[v] = 1
+						for _, mode := range []string{"par", "max1", "max2"} {
+							if mode == "max2" && n < 3 {
+								continue
+							}
+							sc := GraphScenario(n, es, scr, ret, mode)
+							if !thorough {
+								sc.Light = 1
+							}
+							out = append(out, sc)
+						}
+					}
+				}
+			}
+		}
+	}
+	// a retried task and a cancellation
+	for n := 1; n <= 2; n++ {
+		scr := make([][]string, n)
+		for i := range scr {
+			scr[i] = []string{"ok"}
+		}
+		scr[0] = []string{"err", "err"}
+		ret := make([]int, n)
+		ret[0] = 1
+		sc := GraphScenario(n, nil, scr, ret, "par")
+		sc.Cancel = true
+		if !thorough {
+			sc.Light = 1
+		}
+		out = append(out, sc)
+	}
+	return out
+}
+
+// ownContextError: one task fails with an error of its own that wraps context.DeadlineExceeded while the
+// context given to Run is live (a task-local timeout): it is a failure like any other.
+func ownContextError(thorough bool) []*Scenario {
+	var out []*Scenario
+	for n := 1; n <= 3; n++ {
+		for _, es := range AllDAGs(n) {
+			for v := 0; v < n; v++ {
+				scr := make([][]string, n)
+				for i := range scr {
+					scr[i] = []string{"ok"}
+				}
+				scr[v] = []string{"cerr"}
+				if !relevant(n, es, scr) {
+					continue
+				}
+				sc := GraphScenario(n, es, scr, nil, "par")
+				if !thorough {
+					sc.Light = 1
+				}
+				out = append(out, sc)
+				// with a retry that keeps failing the same way
+				scr2 := make([][]string, n)
+				copy(scr2, scr)
+				scr2[v] = []string{"cerr", "cerr"}
+				ret := make([]int, n)
+				ret[v] = 1
+				if n <= 2 || thorough {
+					sc2 := GraphScenario(n, es, scr2, ret, "serial")
+					if !thorough {
+						sc2.Light = 1
+					}
+					out = append(out, sc2)
+				}
+			}
+		}
+	}
+	return out
+}
+
+// runThenExtend: Run, then further construction calls, then Run again: new dependents of a task that failed,
+// succeeded or was never started; new edges between known tasks (possibly closing a cycle); a sort in between.
+func runThenExtend(thorough bool) []*Scenario {
+	var out []*Scenario
+	first := [][]Call{
+		{{"add", 0, 0}},
+		{{"add", 0, 0}, {"add", 1, 0}},
+		{{"dep", 1, 0}},
+		{{"add", 0, 0}, {"add", 1, 0}, {"add", 2, 0}},
+	}
+	second := [][]Call{
+		{{"dep", 1, 0}},
+		{{"dep", 2, 0}},
+		{{"dep", 0, 1}},
+		{{"add", 2, 0}},
+		{{"dep", 1, 0}, {"dep", 0, 1}},
+		{{"dep", 2, 1}, {"dep", 1, 0}},
+		{{"sort", 0, 0}, {"dep", 0, 1}},
+		{{"add", 0, 0}},
+	}
+	for fi, f := range first {
+		for si, s2 := range second {
+			for _, a := range []string{"ok", "err"} {
+				for _, opener := range []string{"run", "sort"} {
+					if opener == "sort" && a == "err" {
+						continue
+					}
+					var h []Call
+					h = append(h, f...)
+					h = append(h, Call{opener, 0, 0})
+					h = append(h, s2...)
+					for _, mode := range []string{"par", "serial"} {
+						if mode == "serial" && !thorough && len(f) > 2 {
+							continue
+						}
+						sc := &Scenario{N: 3, Hist: h, Mode: mode, History: true}
+						sc.Scripts = [][]string{{a}, {"ok"}, {"ok"}}
+						out = append(out, sc)
+						// cancellation somewhere in the two runs: a few representatives (every cancellation point x every
+						// schedule deviation of a two-run history is expensive)
+						if a == "ok" && opener == "run" && mode == "par" && (thorough || (fi == 1 && (si == 0 || si == 4))) {
+							scc := *sc
+							scc.Cancel = true
+							scc.Light = 1
+							out = append(out, &scc)
+						}
+					}
+				}
+			}
+		}
+	}
+	return out
+}
+
+// sharedSaturated: the first graph is bounded and busy with other tasks while the second graph, which has free
+// capacity, holds a task they share.
+func sharedSaturated(thorough bool) []*Scenario {
+	var out []*Scenario
+	for n := 2; n <= 3; n++ {
+		scr := make([][]string, n)
+		for i := range scr {
+			scr[i] = []string{"ok"}
+		}
+		for _, mode := range []string{"max1", "serial", "max2"} {
+			if mode == "max2" && n < 3 {
+				continue
+			}
+			for s := 1; s < n; s++ {
+				sc := GraphScenario(n, nil, scr, nil, mode)
+				if !thorough {
+					sc.Light = 1
+				}
+				sc.SharedMode = "par"
+				for i := n - s; i < n; i++ {
+					sc.Shared = append(sc.Shared, i)
+				}
+				out = append(out, sc)
+			}
+		}
+	}
+	return out
+}
+
+// readdedSharedTask: the first graph already knows an ID (AddTask, or a vertex created by TaskDependsOn) and is then
+// given another Task object with the same ID, the one a second, concurrently running graph holds.
+func readdedSharedTask(thorough bool) []*Scenario {
+	var out []*Scenario
+	hists := [][]Call{
+		{{"add", 0, 0}, {"add2", 0, 0}},
+		{{"add", 0, 0}, {"add", 1, 0}, {"add2", 0, 0}},
+		{{"dep", 1, 0}, {"add2", 0, 0}},
+		{{"dep", 0, 1}, {"add2", 0, 0}},
+		{{"add2", 0, 0}, {"add", 1, 0}},
+	}
+	for _, h := range hists {
+		for _, mm := range [][2]string{{"par", "par"}, {"serial", "par"}, {"max1", "serial"}} {
+			sc := &Scenario{N: 2, Hist: h, Mode: mm[0], SharedMode: mm[1], Shared: []int{0}, Shared2: true, History: true}
+			sc.Scripts = [][]string{{"ok"}, {"ok"}}
+			out = append(out, sc)
 		}
 	}
 	return out
